@@ -174,3 +174,12 @@ Theorem C09_v2_last_release_marks_the_chord_released : forall j a,
   ac_status (release_in_ach j a) = match ac_status a with AUnread | AUnreadReleased => AUnreadReleased | _ => AReleased end.
 Proof. exact last_release_marks_the_chord_released. Qed.
 Print Assumptions C09_v2_last_release_marks_the_chord_released.
+
+(* defchordsv2, "that chord's action is performed once": reading hands out the action of the first unread chord and marks it read;
+   a chord that has been read is never handed out again; nothing else in the list changes *)
+Theorem C09_v2_action_is_read_once : forall l,
+  (forallb (fun a => negb (unread a)) l = true /\ get_action_go l = (l, None)) \/
+  (exists pre a post, l = pre ++ a :: post /\ forallb (fun a => negb (unread a)) pre = true /\ unread a = true /\
+     get_action_go l = (pre ++ mark_read a :: post, Some ((0, ac_coord a), ac_delay a, ac_action a)) /\ unread (mark_read a) = false).
+Proof. exact action_is_read_once. Qed.
+Print Assumptions C09_v2_action_is_read_once.
